@@ -190,6 +190,15 @@ func (e *Extractor) ensureReader() error {
 // the PDF reader only; for the other formats there is no such reader, and using
 // it would dereference nil.
 func (e *Extractor) ensurePDFReader() error {
+	if e.format != format.PDF && e.filename != "" {
+		// This call is going to fail, and the caller returns on that error
+		// before its own deferred Close is in place: without this, the file
+		// that ensureReader opens for the other format (now, or earlier for
+		// PageCount) stayed open after the failed operation. ensureReader
+		// re-opens it on demand. A reader without a file (FromHTMLReader)
+		// holds no descriptor and could not be re-opened; it is left alone.
+		defer e.Close()
+	}
 	if err := e.ensureReader(); err != nil {
 		return err
 	}
